@@ -73,6 +73,8 @@ def ref_story_table(rc):
     order element, plus flags telling which relations are in claim."""
     stories = [c for c in rc if c.tag == 'story']
     durs = [ref_duration(s) for s in stories]
+    if any(d is not None and not math.isfinite(d) for d in durs):
+        raise ValueError('non-finite duration: outside the claim')
     all_timed = all(d is not None for d in durs)
     ids = [_text(s, 'storyID') for s in stories]
     start0 = ref_ro_start(rc)
@@ -202,7 +204,7 @@ def story_items_ok(self, result):
 def story_duration_ok(self, result):
     try:
         want = ref_duration(self.xml)
-    except (ValueError, TypeError):
+    except (ValueError, TypeError, ArithmeticError):
         return True          # non-numeric durations: outside the claim
     return _rec('Story', 'duration', feq(result, want), result, want, prop='C16')
 
@@ -273,7 +275,7 @@ def ro_stories_ok(self, result):
         return True
     try:
         tab = ref_story_table(rc)
-    except (ValueError, TypeError):
+    except (ValueError, TypeError, ArithmeticError):
         return True          # non-numeric / unparseable timing: outside the claim
     if not tab['unique']:
         return True
@@ -300,7 +302,7 @@ def ro_duration_ok(self, result):
         return True
     try:
         tab = ref_story_table(_rc(self))
-    except (ValueError, TypeError):
+    except (ValueError, TypeError, ArithmeticError):
         return True
     if tab['all_timed']:
         return _rec('RunningOrder', 'duration', feq(result, tab['total']) or
@@ -313,7 +315,7 @@ def ro_start_ok(self, result):
         return True
     try:
         want = ref_ro_start(_rc(self))
-    except (ValueError, TypeError):
+    except (ValueError, TypeError, ArithmeticError):
         return True
     return _rec('RunningOrder', 'start_time', result == want, result, want, prop='C16')
 
@@ -323,7 +325,7 @@ def ro_end_ok(self, result):
         return True
     try:
         tab = ref_story_table(_rc(self))
-    except (ValueError, TypeError):
+    except (ValueError, TypeError, ArithmeticError):
         return True
     if not tab['rows']:
         return _rec('RunningOrder', 'end_time', result is None, result, None, prop='C16')
